@@ -776,7 +776,7 @@ def worker_main() -> None:  # pragma: no cover  (runs in a subprocess)
             return {"k": "op", "op": n.op, "mt": ty(n.method_type)}
         if isinstance(n, N.IndexExpr):
             base_t = types.get(n.base)
-            return {"k": "index", "mt": ty(n.method_type), "base_union": isinstance(MT.get_proper_type(base_t), MT.UnionType) if base_t is not None else False}
+            return {"k": "index", "base": mexpr(n.base), "mt": ty(n.method_type), "base_union": isinstance(MT.get_proper_type(base_t), MT.UnionType) if base_t is not None else False}
         if isinstance(n, N.AwaitExpr):
             return {"k": "await", "e": mexpr(n.expr)}
         if isinstance(n, N.LambdaExpr):
@@ -915,6 +915,7 @@ def worker_main() -> None:  # pragma: no cover  (runs in a subprocess)
                 "name": k,
                 "mro": [x.fullname for x in info.mro],
                 "names": [[n, sym(info.names[n].node)] for n in names if n in info.names and info.names[n].node is not None],
+                "is_enum": bool(info.is_enum),
                 "enum_members": enum_members(info),
                 "special_ctor": bool(info.typeddict_type is not None or k == "builtins.type"),
             }
@@ -1347,20 +1348,13 @@ def classify(op: dict[str, Any], root: Any, enums: dict[str, list[str]]) -> str:
 def nonplain_reason(e: Any, enums: dict[str, list[str]]) -> str | None:
     """the innermost construct on which the resolver departs from the reference (mirrors `Plain` in Props/C05.lean)"""
     k = e.get("k")
-    for child in ("e", "callee", "body", "value", "target"):
+    for child in ("e", "callee", "body", "value", "base"):
         if isinstance(e.get(child), dict):
             r = nonplain_reason(e[child], enums)
             if r:
                 return r
     if k in ("name", "member") and e.get("narrowed") is not None:
         return "narrowed-reference"
-    if k == "member":
-        recv = e["e"]
-        node = recv.get("node") or {}
-        if recv.get("k") == "name" and node.get("s") == "info" and e["name"] in enums.get(node.get("name"), []):
-            return "enum-member-via-class"
-    if k == "walrus":
-        return "walrus-typed-by-target"
     if k == "index" and e.get("base_union"):
         return "subscript-of-union"
     return None
